@@ -117,3 +117,12 @@ package codec
 //@   modifies *
 //@   callpre SetUint: (kindOf(v) == 8 ==> x <= 255) && (kindOf(v) == 9 ==> x <= 65535) && (kindOf(v) == 10 ==> x <= 4294967295)
 //@   callpre SetBool: kindOf(v) == 1
+
+// C02: the bytes a value is marshalled to (uninterpreted function of the object at that time)
+//@ property C02
+//@ smt all (declare-fun enc_of (Iface Int) BSeq)
+//@ smt all (declare-ghost enc_epoch Int)
+//@ func (c *bytesWrapper) MarshalToBytes(v) (bs, err)
+//@   trusted
+//@   pure
+//@   ensures err == nil ==> seq(bs) == enc_of(v, ghost(enc_epoch)) && bs != nil && len(bs) < 0x1000000000000
